@@ -143,7 +143,7 @@ fn run_pipeline(land: Landscape, start: f64, reps: u64, opt: &BuildOptimiser, th
 pub fn best_replica_is_written(run: &mut Run, tier: Tier) -> (u64, u64) {
     let mut jobs = vec![];
     for &scale in [1., 1e-6, 1e-9, 1e-13].iter() {
-        for &k in tier.pick(vec![2u64, 3, 5, 8, 16], vec![2u64, 3, 4, 5, 6, 8, 11, 16, 24]).iter() {
+        for &k in tier.pick(vec![2u64, 3, 5, 8, 16, 40], vec![2u64, 3, 4, 5, 6, 8, 11, 16, 24, 40, 100]).iter() {
             for &threads in [1usize, 4].iter() {
                 for &start in [0.31, 0.77].iter() {
                     jobs.push((scale, k, threads, start));
@@ -176,6 +176,16 @@ pub fn best_replica_is_written(run: &mut Run, tier: Tier) -> (u64, u64) {
         let mut last: Vec<Option<(u64, f64)>> = vec![None; log.instances + 1];
         for (inst, pb, s) in log.events.iter() {
             last[*inst] = Some((*pb, *s));
+        }
+        // every replica goes through the whole pipeline: none is dropped on the way
+        let mut calls = vec![0u64; log.instances + 1];
+        for (inst, _, _) in log.events.iter() {
+            calls[*inst] += 1;
+        }
+        let most = calls.iter().skip(1).cloned().max().unwrap_or(0);
+        if let Some((i, c)) = calls.iter().enumerate().skip(1).find(|(_, c)| **c < most) {
+            run.fail(None, &format!("replica {} of {} was evaluated {} times, others {} times: it did not go through the whole pipeline, so the written structure is not the best of all replicas' results", i - 1, k, c, most), case.clone());
+            continue;
         }
         let finals: Vec<(u64, f64)> = last.iter().skip(1).filter_map(|x| *x).collect();
         let best = finals.iter().map(|x| x.1).fold(f64::NEG_INFINITY, f64::max);
